@@ -533,6 +533,12 @@ func c01matrix() []*Program {
 			switch form {
 			case "define", "var", "const", "assign", "destructuring":
 				// a: before the binding, same scope after, nested function after, sibling block
+				// e/f: bound in a try body, used in the catch and finally bodies (one shared scope) and after the statement
+				variants = append(variants,
+					"global L\ntry {\n"+indent(bind+c01use(USE, 1)+"throw \"t\"\n")+"} catch ce {\n"+indent(c01use(USE, 2))+"} finally {\n"+indent(c01use(USE, 3))+"}\n"+c01use(USE, 4),
+					"global L\nf := func() {\n"+indent("try {\n"+indent(bind)+"} finally {\n"+indent(c01use(USE, 1)+"g := func() {\n"+indent(c01use(USE, 2))+"}\ng()\n")+"}\n")+"}\nf()\n"+c01use(USE, 3),
+					"global L\nfor i := 0; i < 2; i++ {\n"+indent("if i == 1 {\n"+indent(c01use(USE, 1))+"} else {\n"+indent(bind+c01use(USE, 2))+"}\n")+"}\n",
+				)
 				variants = append(variants,
 					"global L\n"+c01use(USE, 1)+bind+c01use(USE, 2)+"f := func() {\n"+indent(c01use(USE, 3))+"}\nf()\n",
 					"global L\nif true {\n"+indent(bind+c01use(USE, 1))+"}\n"+c01use(USE, 2),
